@@ -297,6 +297,18 @@ def coq_expr(e):
         return f'({coq_expr(e[1])} ++ [{coq_expr(e[2])}])'
     if k == 'pair':
         return f'({coq_expr(e[1])}, {coq_expr(e[2])})'
+    if k in ('true', 'false'):
+        return k
+    if k == 'has_key':
+        return f'(has_key fst {coq_expr(e[1])} {coq_expr(e[2])})'
+    if k == 'memz':
+        return f'(memz {coq_expr(e[1])} {coq_expr(e[2])})'
+    if k == 'dict_put':
+        return f'(dict_put {coq_expr(e[1])} {coq_expr(e[2])} {coq_expr(e[3])})'
+    if k == 'field':
+        return f'({e[1]} {coq_expr(e[2])})'
+    if k == 'newcap':
+        return f'({XFUNC}_new_capture {coq_expr(e[1])} {coq_expr(e[2])} {coq_expr(e[3])})'
     if k in ('fst', 'snd'):
         return f'({k} {coq_expr(e[1])})'
     if k == 'cmp':
@@ -396,6 +408,20 @@ def ev(e, env):
         return (ev(e[1], env), ev(e[2], env))
     if k in ('fst', 'snd'):
         return ev(e[1], env)[0 if k == 'fst' else 1]
+    if k in ('true', 'false'):
+        return k == 'true'
+    if k == 'has_key':
+        return any(x[0] == ev(e[1], env) for x in ev(e[2], env))
+    if k == 'memz':
+        return ev(e[1], env) in ev(e[2], env)
+    if k == 'dict_put':
+        return _dict_put(ev(e[1], env), ev(e[2], env), ev(e[3], env))
+    if k == 'field':
+        return ev(e[2], env)[e[1]]
+    if k == 'newcap':
+        tr = _TR['tr']
+        return run_tree(tr['init'], {'epoch_s0': ev(e[1], env), 'epoch_samples': ev(e[2], env), 'info': ev(e[3], env),
+                                     'auto_send': tr['defaults']['auto_send']}, tr['state'])[0]
     if k == 'cmp':
         a, b = ev(e[2], env), ev(e[3], env)
         return {'<?': a < b, '<=?': a <= b, '>?': a > b, '>=?': a >= b, '=?': a == b}[e[1]]
@@ -807,6 +833,615 @@ def examples_extract(ex, limit=12):
     return out
 
 
+# ======================================================================================================================
+# extract_epochs, the WHOLE loop body (second batch): one send(data) as a function  state x inputs -> XOk (state, what
+# target received, callback called) | XRaise exception.  Statement by statement, in continuation-passing style:
+#   `while L:` (L a deque / list)          -> a fuelled Fixpoint over the variables its body writes (test: L not empty)
+#   `for p in xs:` / `for k, v in list(D.items()):` -> a structural Fixpoint over the snapshot list; v aliases D[k]
+#   `try: .. except StopIteration: ..`     -> the statements of the handler are the continuation of a finished coroutine
+#   co.send((a, b)) / co.send(pair)        -> capture_epoch_step (the generated step above) on the coroutine state; what its
+#                                             target (= epochs.append, pinned at the capture_epoch call) receives is appended
+#                                             to `epochs` as the model's item tagged with `key`; `break` there = StopIteration
+#   L.popleft() / xs.remove(k) / D.pop(k)  -> head+tail / remove_first / del_key, with IndexError / ValueError / KeyError
+#   k in xs / k in D / D[k] = v            -> memz / has_key fst / dict_put (replace in place, else append: dict order)
+#   `continue`, `raise ValueError(f'Duplicate ...')`, the `while True:` pruning loop (extract_epochs_prune above)
+# deques `queue` / `removed_queue` = their contents at the send (model: feed), source_complete.is_set() / `empty_queue_cb
+# is not None` = booleans; the statements of YPIN are pinned by text.
+YF = 'extract_epochs'
+YTYPES = {'tlb': 'Z', 'epoch_coroutines': 'list (Z * ce_state)', 'prior_samples': 'list (Z * list Z)', 'epochs': 'list item',
+          'empty_queue_cb': 'bool', 'buffer_samples': 'Z', 'data': 'list Z', 'removed_queue': 'list Z',
+          'queue': 'list request', 'source_complete': 'bool', 'skip': 'list Z', 'n_remove': 'Z', 'n_pop': 'Z',
+          'n_queued': 'Z', 'n_invalid': 'Z', 'key': 'Z', 'epoch_coroutine': 'ce_state', 'prior_sample': 'Z * list Z',
+          't0': 'Z', 'epoch_samples': 'Z', 'target_arg': 'option (list item)', 'cb_called': 'bool'}
+YSTATE = ['tlb', 'epoch_coroutines', 'prior_samples', 'epochs', 'empty_queue_cb']
+YINPUTS = ['buffer_samples', 'data', 'removed_queue', 'queue', 'source_complete']
+YDEQUES = {'removed_queue', 'queue'}
+YLOOPS = {'removed_queue': 'drain', 'epoch_coroutines': 'deliver', 'prior_samples': 'replay', 'queue': 'intake'}
+YDICTS = {'epoch_coroutines'}
+YKEYLISTS = {'skip'}
+YPRE = {'tlb = 0': ('tlb', ('int', 0)), 'epoch_coroutines = {}': ('epoch_coroutines', ('nil',)),
+        'prior_samples = []': ('prior_samples', ('nil',)), 'epochs = []': ('epochs', ('nil',)),
+        'buffer_samples = round(buffer_size * fs)': None,
+        'if source_complete is None:\n    source_complete = Event()\n    source_complete.set()': None,
+        'if removed_queue is None:\n    removed_queue = deque()': None}
+# pinned statements of the loop body: text -> None (dropped) | (name, IR) ; `info` is a removal notice (its key) in the
+# first loop and a request (Model.request: r_key, r_lo, r_n, r_rid computed by the harness with the pinned float expressions)
+YPIN_DRAIN = {"key = (info['t0'], info.get('key', None))": ('key', ('var', 'info'))}
+YPIN = {"key = (info['t0'], info.get('key', None))": ('key', ('field', 'r_key', ('var', 'info'))),
+        "if n_remove or n_pop:\n    log.debug('Marked %d epochs for removal, removed %d epochs', n_remove, n_pop)": None,
+        "if n_queued or n_invalid:\n    log.debug('Queued %d epochs, %d were invalid', n_queued, n_invalid)": None,
+        "info['prestim_time'] = prestim_time": None, "info['poststim_time'] = poststim_time": None,
+        XCONVERSIONS[0]: None, XCONVERSIONS[1]: None,
+        XCONVERSIONS[2]: ('epoch_samples', ('field', 'r_n', ('var', 'info'))),
+        XCONVERSIONS[3]: ('t0', ('field', 'r_lo', ('var', 'info'))),
+        XCONVERSIONS[4]: ('epoch_coroutine', ('newcap', ('var', 't0'), ('var', 'epoch_samples'), ('field', 'r_rid', ('var', 'info'))))}
+YSTACK = ("if isinstance(epochs[0], PipelineData):\n    merged = concat(epochs, axis=-3)\nelse:\n"
+          "    merged = np.concatenate([e[np.newaxis] for e in epochs], axis=0)\ntarget(merged)\nepochs[:] = []")
+YDUP = "raise ValueError(f'Duplicate epochs not supported. Got {key}.')"
+YPRUNE = ('while True:\n    oldest_samples = prior_samples[0]\n    tub = oldest_samples[0] + oldest_samples[1].shape[-1]\n'
+          '    if tub < tlb - buffer_samples:\n        prior_samples.pop(0)\n    else:\n        break')   # only a marker: its
+# translation is extract_epochs_prune above (translated from the source, not from this text)
+
+
+class _Y:
+    def __init__(self, notes):
+        self.notes, self.loops = notes, []
+
+
+def ycond(n, env, notes):
+    if isinstance(n, ast.BoolOp):
+        r = ycond(n.values[0], env, notes)
+        for v in n.values[1:]:
+            r = ('and' if isinstance(n.op, ast.And) else 'or', r, ycond(v, env, notes))
+        return r
+    if isinstance(n, ast.Compare) and len(n.ops) == 1 and isinstance(n.ops[0], (ast.In, ast.NotIn)) \
+            and _is_name(n.left) and _is_name(n.comparators[0]) and n.left.id in env and n.comparators[0].id in env:
+        c = n.comparators[0].id
+        if c in YDICTS or c in YKEYLISTS:
+            r = ('has_key' if c in YDICTS else 'memz', ('var', n.left.id), ('var', c))
+            return r if isinstance(n.ops[0], ast.In) else ('not', r)
+    t = ast.unparse(n)
+    if t == 'source_complete.is_set()' and 'source_complete' in env:
+        return ('var', 'source_complete')
+    if t == 'empty_queue_cb is not None' and 'empty_queue_cb' in env:
+        return ('var', 'empty_queue_cb')
+    return cond(n, env, notes)
+
+
+def _send_args(call, env, notes):
+    """co.send((a, b)) | co.send(p) with p a (start, chunk) pair"""
+    if len(call.args) != 1 or call.keywords:
+        raise Gap(f'line {call.lineno}: send call not covered')
+    a = call.args[0]
+    if isinstance(a, ast.Tuple) and len(a.elts) == 2:
+        return expr(a.elts[0], env, notes), expr(a.elts[1], env, notes)
+    if _is_name(a) and a.id in env and YTYPES.get(a.id) == 'Z * list Z':
+        return ('fst', ('var', a.id)), ('snd', ('var', a.id))
+    raise Gap(f'line {call.lineno}: send argument `{ast.unparse(a)}` not covered')
+
+
+def yblock(stmts, env, Y, mode, on_stop, alias, pins):
+    """-> tree.  on_stop: (statement list, mode) to go on with when a coroutine finishes (StopIteration), None: propagates.
+    mode: 'top' | 'while' | 'for'.  alias: {coroutine variable: (dict, key variable)}."""
+    if not stmts:
+        return ('end', 'next')
+    st, rest = stmts[0], stmts[1:]
+    go = lambda r=rest, e=env, o=on_stop: yblock(r, e, Y, mode, o, alias, pins)
+    if isinstance(st, tuple) and st[0] == 'endtry':
+        return yblock(rest, env, Y, mode, st[1], alias, pins)
+    text = ast.unparse(st)
+    if text in pins:
+        act = pins[text]
+        Y.notes.add(f'pinned: `{text.splitlines()[0]}{" ..." if chr(10) in text else ""}`'
+                    + ('' if act is None else f' -> {act[0]} := {coq_expr(act[1])}'))
+        if act is None:
+            return go()
+        for v in _fv_expr(act[1]):
+            if v not in env:
+                raise Gap(f'line {st.lineno}: pinned statement reads `{v}` before it is assigned')
+        return ('let', act[0], act[1], go(e=env | {act[0]}))
+    if isinstance(st, ast.Assign) and len(st.targets) == 1 and isinstance(st.targets[0], ast.Name):
+        x, v = st.targets[0].id, st.value
+        if isinstance(v, ast.Call) and isinstance(v.func, ast.Attribute) and v.func.attr == 'popleft' and not v.args \
+                and not v.keywords and _is_name(v.func.value) and v.func.value.id in YDEQUES and v.func.value.id in env:
+            return ('pop', x, v.func.value.id, go(e=env | {x}))
+        if x == 'empty_queue_cb' and ast.unparse(v) == 'None':
+            return ('let', x, ('false',), go())
+        if x in YTYPES and x not in YDEQUES:
+            return ('let', x, expr(v, env, Y.notes), go(e=env | {x}))
+    if isinstance(st, ast.Assign) and len(st.targets) == 1 and isinstance(st.targets[0], ast.Subscript) \
+            and _is_name(st.targets[0].value) and st.targets[0].value.id in YDICTS and _is_name(st.targets[0].slice) \
+            and _is_name(st.value) and {st.targets[0].value.id, st.targets[0].slice.id, st.value.id} <= env:
+        d = st.targets[0].value.id
+        return ('let', d, ('dict_put', ('var', st.targets[0].slice.id), ('var', st.value.id), ('var', d)), go())
+    if isinstance(st, ast.AugAssign) and isinstance(st.target, ast.Name) and type(st.op) in BINOPS:
+        e = ('bin', BINOPS[type(st.op)], expr(st.target, env, Y.notes), expr(st.value, env, Y.notes))
+        return ('let', st.target.id, e, go())
+    if isinstance(st, ast.Expr) and isinstance(st.value, ast.Call):
+        c = st.value
+        f = c.func
+        if text == 'empty_queue_cb()' and 'empty_queue_cb' in env:
+            return ('let', 'cb_called', ('true',), go())
+        if isinstance(f, ast.Attribute) and _is_name(f.value) and f.value.id in env and not c.keywords:
+            o, m = f.value.id, f.attr
+            if m == 'append' and len(c.args) == 1 and o not in YDEQUES and o not in YDICTS:
+                return ('let', o, ('snoc', ('var', o), expr(c.args[0], env, Y.notes)), go())
+            if m == 'remove' and o in YKEYLISTS and len(c.args) == 1 and _is_name(c.args[0]) and c.args[0].id in env:
+                return ('remove', c.args[0].id, o, go())
+            if m == 'pop' and o in YDICTS and len(c.args) == 1 and _is_name(c.args[0]) and c.args[0].id in env:
+                return ('dict_pop', c.args[0].id, o, go())
+            if m == 'send' and YTYPES.get(o) == 'ce_state':
+                a, b = _send_args(c, env, Y.notes)
+                if 'key' not in env or 'epochs' not in env:
+                    raise Gap(f'line {st.lineno}: send outside the scope of `key` / `epochs`')
+                stop = ('end', 'stop') if on_stop is None else \
+                    yblock(on_stop[0], env, Y, mode, on_stop[1], alias, pins)
+                return ('send', o, a, b, alias.get(o), go(), stop)
+    if text == YDUP:
+        return ('raise', 'RDuplicate')
+    if isinstance(st, ast.Continue) and mode == 'while':
+        return ('end', 'next')
+    if isinstance(st, ast.Pass):
+        return go()
+    if isinstance(st, ast.If):
+        if ast.unparse(st.test) == 'len(epochs) != 0' and not st.orelse and '\n'.join(ast.unparse(x) for x in st.body) == YSTACK:
+            Y.notes.add('pinned: the stacking of the epochs of one send + target(merged) + epochs[:] = [] -> Model.stack_ok kind')
+            return ('if', ycond(st.test, env, Y.notes), ('stack', go()), go())
+        return ('if', ycond(st.test, env, Y.notes), go(r=st.body + rest), go(r=st.orelse + rest))
+    if isinstance(st, ast.Try):
+        h = st.handlers
+        if len(h) != 1 or ast.unparse(h[0].type) != 'StopIteration' or h[0].name or st.orelse or st.finalbody:
+            raise Gap(f'line {st.lineno}: try statement not covered')
+        return yblock(st.body + [('endtry', on_stop)] + rest, env, Y, mode, (h[0].body + rest, on_stop), alias, pins)
+    if isinstance(st, ast.While) and not st.orelse:
+        if text == YPRUNE:
+            return ('prune', go())
+        if _is_name(st.test) and st.test.id in YDEQUES and st.test.id in env:
+            body = yblock(st.body, env, Y, 'while', None, {}, YPIN_DRAIN if st.test.id == 'removed_queue' else pins)
+            Y.loops.append({'kind': 'while', 'test': st.test.id, 'body': body, 'line': st.lineno, 'env': set(env)})
+            return ('loop', len(Y.loops) - 1, go(), ('raise', 'RStop'))
+    if isinstance(st, ast.For) and not st.orelse:
+        it, tg = ast.unparse(st.iter), ast.unparse(st.target)
+        if it in [f'list({d}.items())' for d in YDICTS if d in env] and tg == '(key, epoch_coroutine)':
+            d = st.iter.args[0].func.value.id
+            body = yblock(st.body, env | {'key', 'epoch_coroutine'}, Y, 'for', None, {'epoch_coroutine': (d, 'key')}, pins)
+            Y.loops.append({'kind': 'for', 'iter': ('var', d), 'pat': '(key, epoch_coroutine)', 'binds': ['key', 'epoch_coroutine'],
+                            'body': body, 'line': st.lineno, 'env': set(env)})
+        elif it == 'prior_samples' and it in env and tg == 'prior_sample':
+            body = yblock(st.body, env | {'prior_sample'}, Y, 'for', None, alias, pins)
+            Y.loops.append({'kind': 'for', 'iter': ('var', it), 'pat': 'prior_sample', 'binds': ['prior_sample'],
+                            'body': body, 'line': st.lineno, 'env': set(env)})
+        else:
+            raise Gap(f'line {st.lineno}: for loop `{text.splitlines()[0]}` not covered')
+        stop = ('raise', 'RStop') if on_stop is None else yblock(on_stop[0], env, Y, mode, on_stop[1], alias, pins)
+        return ('loop', len(Y.loops) - 1, go(), stop)
+    raise Gap(f'line {st.lineno}: statement `{text.splitlines()[0]}` of {YF} not covered')
+
+
+def _fv_expr(e):
+    if e[0] == 'var':
+        return {e[1]}
+    return set().union(*[_fv_expr(x) for x in e[1:] if isinstance(x, tuple)]) if len(e) > 1 else set()
+
+
+def _tree_vars(t, loops):
+    """(read, written) variable names of a tree (bound names included: the caller intersects with its environment)"""
+    k = t[0]
+    if k == 'let':
+        r, w = _tree_vars(t[3], loops)
+        return r | _fv_expr(t[2]), w | {t[1]}
+    if k == 'if':
+        a, b = _tree_vars(t[2], loops), _tree_vars(t[3], loops)
+        return a[0] | b[0] | _fv_expr(t[1]), a[1] | b[1]
+    if k == 'pop':
+        r, w = _tree_vars(t[3], loops)
+        return r | {t[2]}, w | {t[1], t[2]}
+    if k in ('remove', 'dict_pop'):
+        r, w = _tree_vars(t[3], loops)
+        return r | {t[1], t[2]}, w | {t[2]}
+    if k == 'send':
+        a, b = _tree_vars(t[5], loops), _tree_vars(t[6], loops)
+        al = {t[4][0], t[4][1]} if t[4] else set()
+        return a[0] | b[0] | _fv_expr(t[2]) | _fv_expr(t[3]) | {t[1], 'key', 'epochs'} | al, a[1] | b[1] | {t[1], 'epochs'} | ({t[4][0]} if t[4] else set())
+    if k == 'loop':
+        L = loops[t[1]]
+        a, b = _tree_vars(t[2], loops), _tree_vars(t[3], loops)
+        return a[0] | b[0] | set(L['args']) | (_fv_expr(L['iter']) if L['kind'] == 'for' else set()), a[1] | b[1] | set(L['W'])
+    if k == 'prune':
+        r, w = _tree_vars(t[1], loops)
+        return r | {'tlb', 'prior_samples', 'buffer_samples'}, w | {'prior_samples'}
+    if k == 'stack':
+        r, w = _tree_vars(t[1], loops)
+        return r | {'epochs'}, w | {'epochs', 'target_arg'}
+    return set(), set()
+
+
+def translate_send(tree, notes):
+    f = [n for n in tree.body if isinstance(n, ast.FunctionDef) and n.name == YF][0]     # shape checked by translate_extract
+    body = [st for st in f.body if not (isinstance(st, ast.Expr) and isinstance(st.value, ast.Constant))]
+    pre, loop = body[:-1], body[-1].body
+    init = {}
+    for st in pre:
+        text = ast.unparse(st)
+        if text not in YPRE or text in init:
+            raise Gap(f'line {st.lineno}: `{text.splitlines()[0]}` before the loop of {YF} not covered')
+        init[text] = YPRE[text]
+    if set(init) != set(YPRE):
+        raise Gap(f'{YF}: initialisation {sorted(set(YPRE) - set(init))} not found')
+    names = [a.arg for a in f.args.args]
+    for v in ('queue', 'removed_queue', 'source_complete', 'empty_queue_cb', 'target', 'buffer_size', 'fs'):
+        if v not in names:
+            raise Gap(f'{YF} has no parameter {v}')
+    Y = _Y(notes)
+    env = set(YSTATE) | set(YINPUTS) | {'target_arg', 'cb_called'}
+    top = yblock(loop[1:], env, Y, 'top', None, {}, YPIN)
+    # the variables of every loop: arguments = what its body reads of the enclosing scope, results = what it writes of it
+    for L in Y.loops:                                   # inner loops are appended before the loops that contain them
+        r, w = _tree_vars(L['body'], Y.loops)
+        scope = L['env']
+        extra = {L['test']} if L['kind'] == 'while' else set()
+        L['W'] = [v for v in YTYPES if v in (w | extra) & scope and (L['kind'] == 'while' or v not in L['binds'])]
+        L['args'] = [v for v in YTYPES if v in (r | w | extra) & scope]
+        L['name'] = f'{YF}_' + YLOOPS[L['test'] if L['kind'] == 'while' else L['iter'][1]]      # by what it runs over
+    if len({L['name'] for L in Y.loops}) != len(Y.loops):
+        raise Gap(f'{YF}: two loops over the same container')
+    nloops = {'while': 0, 'for': 0}
+    for L in Y.loops:
+        nloops[L['kind']] += 1
+    if nloops != {'while': 2, 'for': 2}:
+        raise Gap(f'{YF}: loops found {nloops}')
+    targets = [n for n in ast.walk(f) if isinstance(n, ast.Call) and _is_name(n.func, 'target')]
+    if len(targets) != 1:
+        raise Gap(f'{YF}: {len(targets)} target calls')
+    return {'init': {v[0]: v[1] for v in init.values() if v}, 'top': top, 'loops': Y.loops}
+
+
+# ---- printing
+def _tuple(vs, flag=None):
+    xs = list(vs) + ([flag] if flag is not None else [])
+    return '(' + ', '.join(xs) + ')' if len(xs) != 1 else xs[0]
+
+
+def _ttype(vs, flag=True):
+    xs = [f'({YTYPES[v]})' for v in vs] + (['bool'] if flag else [])
+    return ' * '.join(xs)
+
+
+def coq_ytree(t, ys, ind, end):
+    """end: function kind -> Coq text of the result of a path"""
+    p = ' ' * ind
+    k = t[0]
+    rec = lambda x, i=ind: coq_ytree(x, ys, i, end)
+    if k == 'let':
+        return f'{p}let {t[1]} := {coq_expr(t[2])} in\n' + rec(t[3])
+    if k == 'if':
+        return f'{p}if {coq_expr(t[1])} then\n' + rec(t[2], ind + 2) + f'\n{p}else\n' + rec(t[3], ind + 2)
+    if k == 'pop':
+        return f'{p}match {t[2]} with\n{p}| [] => XRaise RIndexError\n{p}| {t[1]} :: {t[2]} =>\n' + rec(t[3], ind + 2) + f'\n{p}end'
+    if k == 'remove':
+        return (f'{p}if memz {t[1]} {t[2]} then\n{p}  let {t[2]} := remove_first {t[1]} {t[2]} in\n' + rec(t[3], ind + 2)
+                + f'\n{p}else XRaise RValueError')
+    if k == 'dict_pop':
+        return (f'{p}if has_key fst {t[1]} {t[2]} then\n{p}  let {t[2]} := del_key fst {t[1]} {t[2]} in\n' + rec(t[3], ind + 2)
+                + f'\n{p}else XRaise RKeyError')
+    if k == 'raise':
+        return f'{p}XRaise {t[1]}'
+    if k == 'end':
+        return p + end(t[1])
+    if k == 'send':
+        co, al = t[1], t[4]
+        upd = f'{p}let {al[0]} := dict_put {al[1]} {co} {al[0]} in\n' if al else ''
+        return (f"{p}let '(co_, out_, fin_) := capture_epoch_step {co} {coq_expr(t[2])} {coq_expr(t[3])} in\n"
+                f'{p}let epochs := epochs ++ out_items key {co} out_ in\n{p}let {co} := co_ in\n' + upd
+                + f'{p}if fin_ then\n' + rec(t[6], ind + 2) + f'\n{p}else\n' + rec(t[5], ind + 2))
+    if k == 'loop':
+        L = ys['loops'][t[1]]
+        first = 'fuel ' if L['kind'] == 'while' else coq_expr(L['iter']) + ' '
+        call = f'{L["name"]} {first}' + ' '.join(L['args'])
+        return (f'{p}match {call} with\n{p}| XRaise e_ => XRaise e_\n{p}| XOk {_tuple(L["W"], "true")} =>\n' + rec(t[3], ind + 2)
+                + f'\n{p}| XOk {_tuple(L["W"], "false")} =>\n' + rec(t[2], ind + 2) + f'\n{p}end')
+    if k == 'prune':
+        return (f'{p}match {XFUNC}_prune fuel tlb prior_samples buffer_samples with\n{p}| None => XRaise RIndexError\n'
+                f'{p}| Some prior_samples =>\n' + rec(t[1], ind + 2) + f'\n{p}end')
+    if k == 'stack':
+        return (f'{p}if stack_ok kind_ epochs then\n{p}  let target_arg := Some epochs in\n{p}  let epochs := [] in\n'
+                + rec(t[1], ind + 2) + f'\n{p}else XRaise RStack')
+    raise Gap(f'printer: {k}')
+
+
+YHEADER = """(* ---- extract_epochs: one whole send (second batch).  Fixed glue: *)
+(* what epochs.append receives from the coroutine filed under `key`, as the model's item *)
+Definition ce_item (key : Z) (st : ce_state) (o : ce_out) : item :=
+  match o with
+  | OTarget d => {| i_key := key; i_rid := ce_md st; i_s0 := ce_epoch_s0 st; i_data := d; i_missed := false |}
+  | OMissed s0 md => {| i_key := key; i_rid := md; i_s0 := s0; i_data := []; i_missed := true |}
+  end.
+Definition out_items (key : Z) (st : ce_state) (o : option ce_out) : list item :=
+  match o with None => [] | Some x => [ce_item key st x] end.
+(* D[k] = v on an insertion-ordered dict: replaced in place, else appended *)
+Fixpoint dict_put {A} (k : Z) (v : A) (d : list (Z * A)) : list (Z * A) :=
+  match d with [] => [(k, v)] | x :: t => if fst x =? k then (k, v) :: t else x :: dict_put k v t end.
+Inductive xraise := RIndexError | RKeyError | RValueError | RDuplicate | RStack | RStop | RFuel.
+Inductive xres (A : Type) := XOk (a : A) | XRaise (e : xraise).
+Arguments XOk {A}. Arguments XRaise {A}.
+"""
+
+
+def coq_send(ys, tr):
+    out = [YHEADER, f'Record xe_state := mk_xe_state {{ ' + '; '.join(f'xe_{v} : {YTYPES[v]}' for v in YSTATE) + ' }.', '',
+           '(* the statements before `while True:`; empty_queue_cb: whether a callback was given *)',
+           f'Definition {YF}_init (empty_queue_cb : bool) : xe_state :=']
+    out += [f'  let {v} := {coq_expr(e)} in' for v, e in ys['init'].items()] + [f'  mk_xe_state {" ".join(YSTATE)}.', '']
+    for L in ys['loops']:
+        sig = ' '.join(f'({v} : {YTYPES[v]})' for v in L['args'])
+        rt = f'xres ({_ttype(L["W"])})'
+        W = L['W']
+        endf = lambda kind, W=W: f'XOk {_tuple(W, "true" if kind == "stop" else "false")}'
+        body = coq_ytree(L['body'], ys, 6, endf)
+        rec_call = f'{L["name"]} {"fuel" if L["kind"] == "while" else "items_"} ' + ' '.join(L['args'])
+        if L['kind'] == 'while':
+            out += [f'(* `while {L["test"]}:` at line {L["line"]} *)',
+                    f'Fixpoint {L["name"]} (fuel : nat) {sig} : {rt} :=', '  match fuel with', '  | O => XRaise RFuel',
+                    f'  | S fuel =>\n    if is_nil {L["test"]} then XOk {_tuple(W, "false")} else', '    match (', body, '    ) with',
+                    '    | XRaise e_ => XRaise e_', f'    | XOk {_tuple(W, "_")} => {rec_call}', '    end', '  end.', '']
+        else:
+            it = YTYPES[L['iter'][1]]
+            out += [f'(* `for {L["pat"]} in ...` at line {L["line"]}: over the snapshot items_; true = StopIteration left the loop *)',
+                    f'Fixpoint {L["name"]} (items_ : {it}) {sig} : {rt} :=', '  match items_ with',
+                    f'  | [] => XOk {_tuple(W, "false")}', f'  | {L["pat"]} :: items_ =>', '    match (', body, '    ) with',
+                    '    | XRaise e_ => XRaise e_', f'    | XOk {_tuple(W, "true")} => XOk {_tuple(W, "true")}',
+                    f'    | XOk {_tuple(W, "false")} => {rec_call}', '    end', '  end.', '']
+    ins = ' '.join(f'({v} : {YTYPES[v]})' for v in YINPUTS)
+    unpack = ''.join(f'  let {v} := xe_{v} st_ in\n' for v in YSTATE)
+    endt = lambda kind: f'XOk (mk_xe_state {" ".join(YSTATE)}, target_arg, cb_called)'
+    out += ['(* one send(data): the loop body from `data = (yield)` to the next yield.  queue / removed_queue: their contents;',
+            '   kind_: what the chunks are (Model.kind) - only the stacking depends on it *)',
+            f'Definition {YF}_send (fuel : nat) (kind_ : kind) (st_ : xe_state) {ins}',
+            '  : xres (xe_state * option (list item) * bool) :=',
+            unpack + '  let target_arg := None in\n  let cb_called := false in\n' + coq_ytree(ys['top'], ys, 2, endt) + '.', '']
+    return '\n'.join(out)
+
+
+# ---- the independent evaluator of the whole send, and the comparison with the real extract_epochs
+_TR = {}
+
+
+def _stack_ok(kind, b):
+    """Extract/Model.v stack_ok; kind = (annot, multi)"""
+    uniform = all(len(y['data']) == len(b[0]['data']) for y in b[1:]) if b else True
+    return uniform and (all(y['missed'] for y in b) or not any(y['missed'] for y in b)
+                        or ((not kind[1]) and (kind[0] or not (b[0]['missed'] if b else False))))
+
+
+def _dict_put(k, v, d):
+    return [(k, v) if x[0] == k else x for x in d] if any(x[0] == k for x in d) else d + [(k, v)]
+
+
+def yrun(t, env, ys, xt, kind):
+    """-> ('ok', env, 'next' | 'stop') | ('raise', R)"""
+    tr = _TR['tr']
+    while True:
+        k = t[0]
+        if k == 'let':
+            env[t[1]] = ev(t[2], env)
+            t = t[3]
+        elif k == 'if':
+            t = t[2] if ev(t[1], env) else t[3]
+        elif k == 'pop':
+            if not env[t[2]]:
+                return ('raise', 'RIndexError')
+            env[t[1]], env[t[2]] = env[t[2]][0], env[t[2]][1:]
+            t = t[3]
+        elif k == 'remove':
+            l = list(env[t[2]])
+            if env[t[1]] not in l:
+                return ('raise', 'RValueError')
+            l.remove(env[t[1]])
+            env[t[2]] = l
+            t = t[3]
+        elif k == 'dict_pop':
+            d = env[t[2]]
+            i = [j for j, x in enumerate(d) if x[0] == env[t[1]]]
+            if not i:
+                return ('raise', 'RKeyError')
+            env[t[2]] = d[:i[0]] + d[i[0] + 1:]
+            t = t[3]
+        elif k == 'raise':
+            return ('raise', t[1])
+        elif k == 'end':
+            return ('ok', env, t[1])
+        elif k == 'send':
+            co = env[t[1]]
+            st2, o, fin = run_tree(tr['step'], dict(co, slb=ev(t[2], env), data=ev(t[3], env)), tr['state'])
+            if o is not None:
+                it = {'key': env['key'], 'rid': co['md'], 's0': co['epoch_s0'], 'data': o[1], 'missed': False} if o[0] == 'data' \
+                    else {'key': env['key'], 'rid': o[2], 's0': o[1], 'data': [], 'missed': True}
+                env['epochs'] = env['epochs'] + [it]
+            env[t[1]] = st2
+            if t[4]:
+                env[t[4][0]] = _dict_put(env[t[4][1]], st2, env[t[4][0]])
+            t = t[6] if fin else t[5]
+        elif k == 'loop':
+            L = ys['loops'][t[1]]
+            stopped = False
+            if L['kind'] == 'while':
+                fuel = len(env[L['test']]) + 1
+                while env[L['test']]:
+                    fuel -= 1
+                    r = yrun(L['body'], dict(env), ys, xt, kind) if fuel > 0 else ('raise', 'RFuel')
+                    if r[0] == 'raise':
+                        return r
+                    for v in L['W']:
+                        env[v] = r[1][v]
+            else:
+                for x in list(ev(L['iter'], env)):
+                    e2 = dict(env)
+                    for nme, val in zip(L['binds'], x if len(L['binds']) > 1 else [x]):
+                        e2[nme] = val
+                    r = yrun(L['body'], e2, ys, xt, kind)
+                    if r[0] == 'raise':
+                        return r
+                    for v in L['W']:
+                        env[v] = r[1][v]
+                    if r[2] == 'stop':
+                        stopped = True
+                        break
+            t = t[3] if stopped else t[2]
+        elif k == 'prune':
+            loop = [i for i in xt['items'] if i[0] == 'loop'][0]
+            for _ in range(len(env['prior_samples']) + 2):
+                r = run_tree(loop[1], {v: env[v] for v in XVARS}, ['prior_samples'])
+                if r is None:
+                    return ('raise', 'RIndexError')
+                env['prior_samples'] = r[0]['prior_samples']
+                if r[2]:
+                    break
+            else:
+                return ('raise', 'RFuel')
+            t = t[1]
+        elif k == 'stack':
+            if not _stack_ok(kind, env['epochs']):
+                return ('raise', 'RStack')
+            env['target_arg'], env['epochs'] = list(env['epochs']), []
+            t = t[1]
+        else:
+            raise Gap(f'evaluator: {k}')
+
+
+def send_eval(ys, xt, st, B, data, rems, reqs, complete, kind=(False, False)):
+    env = dict(st, buffer_samples=B, data=data, removed_queue=list(rems), queue=list(reqs), source_complete=complete,
+               target_arg=None, cb_called=False)
+    r = yrun(ys['top'], env, ys, xt, kind)
+    if r[0] == 'raise':
+        return r
+    return ('ok', {v: r[1][v] for v in YSTATE}, r[1]['target_arg'], r[1]['cb_called'])
+
+
+def selftest_send(ys, xt, tr, mod, rng, count=40):
+    """the real extract_epochs (1-D NumPy chunks) driven with random requests / removals / completion flags, send by send:
+    exceptions, what target received, callback calls, tlb, prior_samples, the pending coroutines (order, frame locals)"""
+    import collections
+    import logging
+    import threading
+    import numpy as np
+    logging.getLogger('psiaudio.pipeline').setLevel(logging.ERROR)
+    _TR['tr'] = tr
+    n_sends, outcomes, ex = 0, collections.Counter(), []
+    for trial in range(count):
+        fs = rng.choice([1000.0, 195312.5])
+        Bk = rng.choice([0, 2, 5, 9])
+        pre, post = rng.choice([0, 2]) / fs, rng.choice([0, 1]) / fs
+        per_req = trial % 4 == 3                       # per-request durations: unequal lengths can meet in one send
+        size = None if per_req else rng.randint(0, 5) / fs
+        q, rq, got, cbs = collections.deque(), collections.deque(), [], []
+        sc = threading.Event() if trial % 3 == 0 else None
+        armed = trial % 5 != 4
+        ex_ = mod.extract_epochs(fs, q, size, got.append, buffer_size=Bk / fs, empty_queue_cb=(lambda: cbs.append(1)) if armed else None,
+                                 removed_queue=rq, prestim_time=pre, poststim_time=post, source_complete=sc)
+        B = round((Bk / fs) * fs)
+        st = {'tlb': ev(ys['init']['tlb'], {}), 'epoch_coroutines': [], 'prior_samples': [], 'epochs': [], 'empty_queue_cb': armed}
+        kid, known, nrid = {}, [], 0
+        for j in range(rng.randint(2, 8)):
+            chunk = [rng.randint(0, 99) for _ in range(rng.randint(0, 6))]
+            reqs, rems = [], []
+            for _ in range(rng.choice([0, 0, 1, 1, 2, 3])):
+                if known and rng.random() < 0.12:
+                    t0, key = rng.choice(known)                              # a second request with the same (t0, key)
+                else:
+                    t0, key = (st['tlb'] + rng.randint(-4, 9)) / fs, rng.choice([None, 'a', j])
+                nrid += 1
+                info = {'t0': t0, 'key': key, 'metadata': {'rid': nrid}}
+                if key is None:
+                    del info['key']
+                dur = rng.randint(0, 5) / fs
+                if per_req:
+                    info['duration'] = dur
+                known.append((t0, key))
+                k_ = kid.setdefault((t0, key), len(kid))
+                reqs.append({'r_key': k_, 'r_lo': round((t0 - pre) * fs), 'r_rid': nrid,
+                             'r_n': round(((dur if per_req else size) + post + pre) * fs)})
+                q.append(info)
+            for _ in range(rng.choice([0, 0, 0, 1, 2])):
+                t0, key = rng.choice(known) if known and rng.random() < 0.8 else (77.0, 'zz')
+                rems.append(kid.setdefault((t0, key), len(kid)))
+                rq.append({'t0': t0, 'key': key})
+            if sc is not None:
+                sc.set() if rng.random() < 0.6 else sc.clear()
+            complete = True if sc is None else sc.is_set()
+            n_got, n_cb = len(got), len(cbs)
+            try:
+                ex_.send(np.array(chunk, dtype=np.int64))
+                real = 'ok'
+            except IndexError:
+                real = 'RIndexError'
+            except ValueError as e:
+                real = 'RDuplicate' if 'Duplicate epochs' in str(e) else 'RStack'
+            mine = send_eval(ys, xt, st, B, chunk, rems, reqs, complete)
+            n_sends += 1
+            outcomes[real] += 1
+            what = f'self-test: {YF} trial {trial} send {j} (B={B}, chunk {chunk}, requests {reqs}, removals {rems}, complete {complete})'
+            if (mine[1] if mine[0] == 'raise' else 'ok') != real:
+                raise Gap(f'{what}: the code {real}, the translation {mine[:2] if mine[0] == "raise" else "ok"}')
+            ex.append((st, B, chunk, rems, reqs, complete, mine))
+            if real != 'ok':
+                break
+            _, st2, tgt, cb = mine
+            rows = [[int(v) for v in np.asarray(r).ravel()] for m in got[n_got:] for r in m]
+            if len(got) - n_got > 1 or rows != [it['data'] for it in (tgt or [])] or (tgt is None) != (len(got) == n_got):
+                raise Gap(f'{what}: target received {rows}, the translation {tgt}')
+            if len(cbs) - n_cb != int(cb):
+                raise Gap(f'{what}: callback called {len(cbs) - n_cb} times, the translation {cb}')
+            fl = ex_.gi_frame.f_locals
+            real_st = {'tlb': int(fl['tlb']), 'prior_samples': [(int(a), [int(v) for v in d]) for a, d in fl['prior_samples']],
+                       'epochs': list(fl['epochs']), 'empty_queue_cb': fl['empty_queue_cb'] is not None,
+                       'epoch_coroutines': [(kid[k], {'epoch_s0': int(c.gi_frame.f_locals['epoch_s0']),
+                                                      'epoch_samples': int(c.gi_frame.f_locals['epoch_samples']),
+                                                      'current_s0': int(c.gi_frame.f_locals['current_s0']),
+                                                      'accumulated_data': [[int(v) for v in np.asarray(x)] for x in c.gi_frame.f_locals['accumulated_data']]})
+                                            for k, c in fl['epoch_coroutines'].items()]}
+            mine_st = dict(st2, epoch_coroutines=[(k, {f: c[f] for f in ('epoch_s0', 'epoch_samples', 'current_s0', 'accumulated_data')})
+                                                  for k, c in st2['epoch_coroutines']])
+            if real_st != mine_st or q or rq:
+                raise Gap(f'{what}: state of the code {real_st}, of the translation {mine_st}')
+            st = st2
+    need = {'ok', 'RDuplicate', 'RStack'}
+    if not need <= set(outcomes):
+        raise Gap(f'self-test: outcomes reached {dict(outcomes)}, wanted {need}')
+    return n_sends, dict(outcomes), ex
+
+
+def examples_send(ys, ex, limit=10):
+    """sends of the real extract_epochs as Examples about the emitted text (compared through ye_obs: everything but the
+    auto_send / info fields the frames do not show differently)"""
+    def zl(l):
+        return '[' + '; '.join(_z(x) for x in l) + ']'
+
+    def pl(p):
+        return '[' + '; '.join(f'({_z(a)}, {zl(d)})' for a, d in p) + ']'
+
+    def cs(c):
+        vals = {'Z': _z, 'bool': lambda v: 'true' if v else 'false', 'list (list Z)': lambda v: '[' + '; '.join(zl(x) for x in v) + ']'}
+        return '(mk_ce_state ' + ' '.join(vals[VAR_TYPES[k]](c[k]) for k in _TR['tr']['state']) + ')'
+
+    def il(b):
+        return '[' + '; '.join(f'{{| i_key := {_z(i["key"])}; i_rid := {_z(i["rid"])}; i_s0 := {_z(i["s0"])}; i_data := {zl(i["data"])}; '
+                               f'i_missed := {"true" if i["missed"] else "false"} |}}' for i in b) + ']'
+
+    def stl(st):
+        return (f'(mk_xe_state {_z(st["tlb"])} [' + '; '.join(f'({_z(k)}, {cs(c)})' for k, c in st['epoch_coroutines']) + f'] {pl(st["prior_samples"])} '
+                f'{il(st["epochs"])} {"true" if st["empty_queue_cb"] else "false"})')
+    out = []
+    ex = sorted(ex, key=lambda x: (x[6][0] == 'ok', -len(x[4]) - len(x[3]) - len(x[0]['epoch_coroutines'])))
+    for st, B, chunk, rems, reqs, complete, mine in ex[:limit]:
+        rl = '[' + '; '.join(f'mkreq {_z(r["r_key"])} {_z(r["r_lo"])} {_z(r["r_n"])} {_z(r["r_rid"])}' for r in reqs) + ']'
+        fuel = len(rems) + len(reqs) + len(st['prior_samples']) + 3
+        call = f'{YF}_send {fuel} (mkkind false false) {stl(st)} {_z(B)} {zl(chunk)} {zl(rems)} {rl} {"true" if complete else "false"}'
+        r = f'XRaise {mine[1]}' if mine[0] == 'raise' else \
+            f'XOk ({stl(mine[1])}, {"None" if mine[2] is None else "Some " + il(mine[2])}, {"true" if mine[3] else "false"})'
+        out.append(f'Example real_whole_send_{len(out)} : {call} = {r}.\nProof. vm_compute. reflexivity. Qed.')
+    return out
+
+
 def translate(repo, rng=None):
     """-> (Coq text of coq/gen/CaptureGen.v, info dict).  Raises Gap (fail closed)."""
     import importlib
@@ -822,6 +1457,8 @@ def translate(repo, rng=None):
         raise Gap(f'self-test would run {mod.__file__}, not {path}')
     n_steps, ex = selftest(tr, mod, rng or random.Random(5))
     n_sends, xex = selftest_extract(xt, mod, random.Random(6))
+    ys = translate_send(ast.parse(src), xnotes)
+    n_whole, outcomes, yex = selftest_send(ys, xt, tr, mod, random.Random(7))
     head = (f'(* GENERATED on every run by translate/pycapture2coq.py from {path}\n'
             f'   (coroutine {FUNC}, lines {tr["lines"][0]}-{tr["lines"][1]}) - do not edit.\n'
             + ''.join('   ' + n.replace('"', "'").replace('(*', '( *').replace('*)', '* )') + '\n'
@@ -831,9 +1468,11 @@ def translate(repo, rng=None):
              '   received, StopIteration - checked here against the text above *)\n' + '\n'.join(examples(tr, ex)) + '\n')
     text += ('\n' + coq_extract(xt, tr) + '\n(* sends of the real extract_epochs: tlb, prior_samples of the suspended frame before / after *)\n'
              + '\n'.join(examples_extract(xex)) + '\n')
+    text += ('\n' + coq_send(ys, tr) + '\n(* whole sends of the real extract_epochs (1-D NumPy chunks): state of the suspended frames before / after,\n'
+             '   what target received, whether the callback was called, or the exception *)\n' + '\n'.join(examples_send(ys, yex)) + '\n')
     return text, {'function': FUNC, 'lines': tr['lines'], 'state': tr['state'], 'notes': tr['notes'],
                   'selftest_steps': n_steps, 'extract_lines': xt['lines'], 'extract_notes': sorted(xnotes),
-                  'selftest_sends': n_sends}
+                  'selftest_sends': n_sends, 'selftest_whole_sends': n_whole, 'selftest_outcomes': outcomes}
 
 
 if __name__ == '__main__':
